@@ -36,6 +36,12 @@ def site_of(event):
     return '{}:{}'.format(kind, base)
 
 
+# (source tree, configure arguments) -> what an uninterrupted configure into
+# an empty directory writes; a pure function of the two, shared by the crash
+# points of one scenario (cleared per case)
+REF_CACHE = {}
+
+
 class C10History:
     def __init__(self, sim):
         self.sim = sim
@@ -49,14 +55,21 @@ class C10History:
         self.attempts = 0
 
     # the reference depends only on the source tree: cache it per tree state
-    def reference(self):
-        key = repr(sorted(self.sim.world.snapshot('src').items())) + \
-            repr(self.sim.proj.conf_args)
-        if self.ref_key != key:
-            fresh, files, _ = self.sim.fresh_reference()
-            self.ref = (fresh.ok, declared_outputs(self.sim, files))
-            self.ref_key = key
-        return self.ref
+    def reference(self, conf_args=None):
+        sim = self.sim
+        args = list(sim.proj.conf_args if conf_args is None else conf_args)
+        key = repr(sorted(sim.world.snapshot('src').items())) + repr(args)
+        if key not in REF_CACHE:
+            keep = list(sim.proj.conf_args)
+            sim.proj.conf_args[:] = args
+            try:
+                fresh, files, _ = sim.fresh_reference()
+            finally:
+                sim.proj.conf_args[:] = keep
+            REF_CACHE[key] = (fresh.ok, declared_outputs(sim, files))
+        else:
+            sim.count('reference_cached')
+        return REF_CACHE[key]
 
     def feats(self, extra=()):
         f = {'backend=' + self.sim.backend}
@@ -78,9 +91,17 @@ class C10History:
             extra = how[len('reconfigure:'):].split(' ')
             base = [a for a in sim.proj.conf_args
                     if not any(a.startswith(e.split('=')[0]) for e in extra)]
-            sim.proj.conf_args = base + extra
-            self.ref_key = None
-            return sim.configure(fault=fault)
+            old_args = list(sim.proj.conf_args)
+            sim.proj.conf_args[:] = base + extra
+            r = sim.configure(fault=fault)
+            if fault:
+                # a re-configure with other arguments that fails may or may
+                # not have recorded the new configuration yet: later runs are
+                # about one of the two (see the attempt oracle)
+                self.reconf = {'old': old_args,
+                               'new': list(sim.proj.conf_args),
+                               'after_victim': declared_outputs(sim)}
+            return r
         if how == 'regenerate':
             return sim.bfg(['regenerate', sim.world.build], fault=fault)
         if how == 'lazy':
@@ -178,8 +199,11 @@ class C10History:
             if not r.ok:
                 sim.count('attempt.failed_visibly')
                 return
-            ok, ref = self.reference()
             mine = declared_outputs(sim)
+            if getattr(self, 'reconf', None):
+                if self.judge_reconfigured(how, mine, idx):
+                    return
+            ok, ref = self.reference()
             if not ok:
                 self.violations.append(Violation(
                     PROP, 'success-implies-fresh',
@@ -213,6 +237,49 @@ class C10History:
                                applied])
 
 
+def _judge_reconfigured(self, how, mine, idx):
+    """After a faulted re-configure with *other* arguments the saved
+    configuration is the old or the new one; which, the property does not
+    say.  A successful attempt must then produce what an uninterrupted
+    configure with one of the two writes - and must not take a build file
+    that already described the new configuration back to the old one.
+    Returns True when this attempt has been judged here."""
+    sim = self.sim
+    rc = self.reconf
+    ok_new, ref_new = self.reference(rc['new'])
+    ok_old, ref_old = self.reference(rc['old'])
+    bf = sim.buildfile
+    if ok_new and not sim.diff_files(mine, ref_new):
+        sim.count('attempt.recovered')
+        sim.count('reconfigure.settled_new')
+        self.reconf = None           # later attempts: the new configuration
+        return True
+    if ok_old and not sim.diff_files(mine, ref_old):
+        sim.count('reconfigure.settled_old')
+        was = rc['after_victim'].get(bf)
+        if ok_new and was is not None and was == ref_new.get(bf) and \
+           was != ref_old.get(bf):
+            self.violations.append(Violation(
+                PROP, 'success-implies-fresh',
+                'the failed re-configure had already put the {} of the new '
+                'configuration in place; attempt #{} `{}` exits 0 and takes '
+                'it back to the old configuration'.format(
+                    bf, self.attempts, how),
+                self.feats({'attempt=' + how, 'victim=reconfigure',
+                            'reverted-to-old-configuration',
+                            'stale:' + bf}), idx))
+            return True
+        sim.count('attempt.recovered')
+        sim.proj.conf_args[:] = rc['old']
+        self.reconf = None
+        return True
+    # neither: judged like every other attempt, against the new configuration
+    return False
+
+
+C10History.judge_reconfigured = _judge_reconfigured
+
+
 def run_ops(hist, ops, start=0):
     for i, op in enumerate(ops):
         hist.step(op, start + i)
@@ -224,6 +291,7 @@ def execute(root, proj, cfg, ops):
     w = c08.setup_world(root, proj, cfg)
     sim = S.Sim(w, proj, cfg)
     hist = C10History(sim)
+    REF_CACHE.clear()
     try:
         run_ops(hist, ops)
     finally:
@@ -314,6 +382,7 @@ def coordinates(events, rng, how_many=None):
 def run_case(seed, root, params=None):
     params = params or {}
     rng = random.Random(seed)
+    REF_CACHE.clear()
     backend = rng.choice(params.get('backends', ['make', 'ninja']))
     cfg = c08.make_config(rng, backend)
     cfg['seed'] = seed
@@ -401,13 +470,6 @@ def run_case(seed, root, params=None):
                                     'hist': hc, 'fault': None})
             stats['census_events'] = stats.get('census_events', 0) + \
                 len(events)
-            if victim == 'reconfigure':
-                # A re-configure with *other* arguments that fails may or may
-                # not have recorded the new configuration yet; which of the
-                # two configurations later runs are "about" is not something
-                # the property fixes.  Only the fault-free run is judged
-                # (above); no faults are injected into it.
-                events = []
             n = params.get('points_per_scenario')
             all_coords = coordinates(events, rng, None)
             key = 'scenarios_exhaustive' if (n is None or
